@@ -197,18 +197,17 @@ theorem commitRowsP_sub (r : CHPRP) {row : Row} (h : row ∈ commitRowsP r) : ro
 def shutOf (p : UCP) (on : Nat → Bool) (t : Nat) : Bool :=
   if t = 0 then (decide (p.tar ≠ 0) && !on 0) else (on (t-1) && !on t)
 
-/-- Boolean reading of the start / shutdown definition rows, the exclusion rows and the two bounds of step 0 -/
+/-- Boolean reading of the start / shutdown definition rows, the exclusion rows (every step) and the two bounds of step 0 -/
 def FlagsF (tar T : Nat) (on st sh : Nat → Bool) : Prop :=
   (∀ t, t + 1 < T → ((st (t+1) && !sh (t+1)) = (on (t+1) && !on t) ∧ (sh (t+1) && !st (t+1)) = (!on (t+1) && on t))) ∧
   (tar = 0 → st 0 = on 0) ∧ (tar ≠ 0 → sh 0 = !on 0) ∧
-  (∀ t, t + 1 < T → ¬ (st t = true ∧ sh t = true)) ∧
+  (∀ t, t < T → ¬ (st t = true ∧ sh t = true)) ∧
   (tar = 0 → sh 0 = false) ∧ (tar ≠ 0 → st 0 = false)
 
-/-- the flags of step `t` are the transition indicators — or, ONLY at the last step `T − 1 ≥ 1`, both flags are set
-    although nothing switches (the exclusion rows stop one step early) -/
+/-- the flags of step `t` are the transition indicators (no exception: since the repair e7aae05 of /repo the exclusion
+    rows cover the last step too) -/
 def FlagOK (p : UCP) (T : Nat) (on st sh : Nat → Bool) (t : Nat) : Prop :=
-  (st t = startOf p T on t ∧ sh t = shutOf p on t) ∨
-  (1 ≤ t ∧ t + 1 = T ∧ on (t-1) = on t ∧ st t = true ∧ sh t = true)
+  st t = startOf p T on t ∧ sh t = shutOf p on t
 
 theorem flagsF_iff (p : UCP) (T : Nat) (on st sh : Nat → Bool) (hT : 0 < T) :
     FlagsF p.tar T on st sh ↔ ∀ t, t < T → FlagOK p T on st sh t := by
@@ -216,64 +215,38 @@ theorem flagsF_iff (p : UCP) (T : Nat) (on st sh : Nat → Bool) (hT : 0 < T) :
   · rintro ⟨hE, hF0, hF1, hO, hB0, hB1⟩ t ht
     cases t with
     | zero =>
-      left
       by_cases h0 : p.tar = 0
-      · simp [startOf, shutOf, h0, hF0 h0, hB0 h0]
-      · simp [startOf, shutOf, h0, hF1 h0, hB1 h0]
+      · simp [FlagOK, startOf, shutOf, h0, hF0 h0, hB0 h0]
+      · simp [FlagOK, startOf, shutOf, h0, hF1 h0, hB1 h0]
     | succ s =>
       obtain ⟨e1, e2⟩ := hE s ht
-      by_cases hl : s + 1 + 1 < T
-      · left
-        have ho := hO (s+1) hl
-        simp only [startOf, shutOf, Nat.succ_ne_zero, if_false, Nat.add_sub_cancel]
-        revert e1 e2 ho
-        cases st (s+1) <;> cases sh (s+1) <;> cases on (s+1) <;> cases on s <;> simp
-      · by_cases hb : st (s+1) = true ∧ sh (s+1) = true
-        · right
-          refine ⟨by omega, by omega, ?_, hb.1, hb.2⟩
-          simp only [Nat.add_sub_cancel]
-          revert e1 e2
-          rw [hb.1, hb.2]
-          cases on (s+1) <;> cases on s <;> simp
-        · left
-          simp only [startOf, shutOf, Nat.succ_ne_zero, if_false, Nat.add_sub_cancel]
-          revert e1 e2 hb
-          cases st (s+1) <;> cases sh (s+1) <;> cases on (s+1) <;> cases on s <;> simp
+      have ho := hO (s+1) ht
+      simp only [FlagOK, startOf, shutOf, Nat.succ_ne_zero, if_false, Nat.add_sub_cancel]
+      revert e1 e2 ho
+      cases st (s+1) <;> cases sh (s+1) <;> cases on (s+1) <;> cases on s <;> simp
   · intro h
     refine ⟨?_, ?_, ?_, ?_, ?_, ?_⟩
     · intro t ht
-      rcases h (t+1) ht with ⟨h1, h2⟩ | ⟨_, _, h3, h4, h5⟩
-      · simp only [startOf, shutOf, Nat.succ_ne_zero, if_false, Nat.add_sub_cancel] at h1 h2
-        rw [h1, h2]
-        cases on (t+1) <;> cases on t <;> simp
-      · simp only [Nat.add_sub_cancel] at h3
-        rw [h4, h5, h3]
-        cases on (t+1) <;> simp
+      obtain ⟨h1, h2⟩ := h (t+1) ht
+      simp only [startOf, shutOf, Nat.succ_ne_zero, if_false, Nat.add_sub_cancel] at h1 h2
+      rw [h1, h2]
+      cases on (t+1) <;> cases on t <;> simp
     · intro h0
-      rcases h 0 hT with ⟨h1, _⟩ | ⟨h1, _⟩
-      · simpa [startOf, h0] using h1
-      · omega
+      simpa [startOf, h0] using (h 0 hT).1
     · intro h0
-      rcases h 0 hT with ⟨_, h2⟩ | ⟨h1, _⟩
-      · simpa [shutOf, h0] using h2
-      · omega
+      simpa [shutOf, h0] using (h 0 hT).2
     · intro t ht
-      rcases h t (by omega) with ⟨h1, h2⟩ | ⟨_, h2, _⟩
-      · rw [h1, h2]
-        cases t with
-        | zero => by_cases h0 : p.tar = 0 <;> simp [startOf, shutOf, h0]
-        | succ s =>
-          simp only [startOf, shutOf, Nat.succ_ne_zero, if_false, Nat.add_sub_cancel]
-          cases on (s+1) <;> cases on s <;> simp
-      · omega
+      obtain ⟨h1, h2⟩ := h t ht
+      rw [h1, h2]
+      cases t with
+      | zero => by_cases h0 : p.tar = 0 <;> simp [startOf, shutOf, h0]
+      | succ s =>
+        simp only [startOf, shutOf, Nat.succ_ne_zero, if_false, Nat.add_sub_cancel]
+        cases on (s+1) <;> cases on s <;> simp
     · intro h0
-      rcases h 0 hT with ⟨_, h2⟩ | ⟨h1, _⟩
-      · simpa [shutOf, h0] using h2
-      · omega
+      simpa [shutOf, h0] using (h 0 hT).2
     · intro h0
-      rcases h 0 hT with ⟨h1, _⟩ | ⟨h1, _⟩
-      · simpa [startOf, h0] using h1
-      · omega
+      simpa [startOf, h0] using (h 0 hT).1
 
 /-! ### membership and Boolean reading of the start / shutdown rows -/
 
@@ -281,7 +254,7 @@ theorem mem_startShutRows (r : CHPRP) (row : Row) :
     row ∈ r.startShutRows ↔
       ((∃ t, t < r.core.T - 1 ∧ row = r.startShutRow t) ∨
        row = (if r.core.tar = 0 then r.core.startFirstRow else r.firstRunningRow) ∨
-       (∃ t, t < r.core.T - 1 ∧ row = r.overlapRow t)) := by
+       (∃ t, t < r.core.T ∧ row = r.overlapRow t)) := by
   simp only [CHPRP.startShutRows, List.mem_append, List.mem_map, List.mem_range, List.mem_singleton, eq_comm, or_assoc]
 
 theorem startShut_bool (r : CHPRP) (x : Vec) (t : Nat) (a b c d : Bool)
@@ -395,13 +368,9 @@ theorem flagOK_start (p : UCP) (T : Nat) (on st sh : Nat → Bool) (hT : 0 < T) 
     (∀ t, t + 1 < T → on (t+1) = true → on t = false → st (t+1) = true) ∧ (p.tar = 0 → st 0 = on 0) := by
   constructor
   · intro t ht h1 h0
-    rcases h (t+1) ht with ⟨e, _⟩ | ⟨_, _, _, e, _⟩
-    · rw [e]; simp [startOf, h1, h0]
-    · exact e
+    rw [(h (t+1) ht).1]; simp [startOf, h1, h0]
   · intro h0
-    rcases h 0 hT with ⟨e, _⟩ | ⟨e, _⟩
-    · rw [e]; simp [startOf, h0]
-    · omega
+    rw [(h 0 hT).1]; simp [startOf, h0]
 
 theorem commit_feasibleP_imp_spec (r : CHPRP) (hwf : CommitWFP r) (on : List Bool) (hlen : on.length = r.core.T) :
     CommitFeasibleP r on → MinUpDown (ucp r.core) on := by
@@ -466,7 +435,7 @@ theorem spec_imp_commit_feasibleP (r : CHPRP) (hwf : CommitWFP r) (on : List Boo
     rw [if_neg (by omega), if_neg (by omega)]
     have : o + T + T + t - o - T - T = t := by omega
     rw [this]
-  have hOK : ∀ t, t < r.core.T → FlagOK (ucp r.core) r.core.T (fn on) stf shf t := fun t _ => Or.inl ⟨rfl, rfl⟩
+  have hOK : ∀ t, t < r.core.T → FlagOK (ucp r.core) r.core.T (fn on) stf shf t := fun t _ => ⟨rfl, rfl⟩
   have hF := (flagsF_iff (ucp r.core) r.core.T (fn on) stf shf hT).2 hOK
   obtain ⟨hrowsF, hbst, hbsh⟩ := (P_flags r x (fn on) stf shf hwf hon hst hsh).2 hF
   refine ⟨x, hon, ?_, ?_, ?_, ?_, hbst, hbsh⟩
@@ -507,11 +476,6 @@ def StopsAt (r : CHPRP) (x : Vec) (t : Nat) : Prop :=
 def FlagExactAt (r : CHPRP) (x : Vec) (t : Nat) : Prop :=
   (x (r.core.layout.start t) = 1 ↔ StartsAt r x t) ∧ (x (r.shut t) = 1 ↔ StopsAt r x t)
 
-/-- the one deviation the rows allow: at the LAST step `T − 1 ≥ 1` both flags are 1 and nothing switches -/
-def FlagBothAt (r : CHPRP) (x : Vec) (t : Nat) : Prop :=
-  1 ≤ t ∧ t + 1 = r.core.T ∧ x (r.core.layout.on (t-1)) = x (r.core.layout.on t) ∧
-    x (r.core.layout.start t) = 1 ∧ x (r.shut t) = 1
-
 theorem b2r_eq_one (a : Bool) : b2r a = 1 ↔ a = true := by cases a <;> simp [b2r]
 theorem b2r_eq_zero (a : Bool) : b2r a = 0 ↔ a = false := by cases a <;> simp [b2r]
 theorem b2r_inj (a b : Bool) : b2r a = b2r b ↔ a = b := by cases a <;> cases b <;> simp [b2r]
@@ -520,8 +484,8 @@ theorem flagOK_iff_x (r : CHPRP) (x : Vec) (onf stf shf : Nat → Bool)
     (hon : ∀ t, t < r.core.T → x (r.core.layout.on t) = b2r (onf t))
     (hst : ∀ t, t < r.core.T → x (r.core.layout.start t) = b2r (stf t))
     (hsh : ∀ t, t < r.core.T → x (r.shut t) = b2r (shf t)) (t : Nat) (ht : t < r.core.T) :
-    FlagOK (ucp r.core) r.core.T onf stf shf t ↔ (FlagExactAt r x t ∨ FlagBothAt r x t) := by
-  unfold FlagOK FlagExactAt FlagBothAt StartsAt StopsAt
+    FlagOK (ucp r.core) r.core.T onf stf shf t ↔ FlagExactAt r x t := by
+  unfold FlagOK FlagExactAt StartsAt StopsAt
   cases t with
   | zero =>
     rw [hon 0 ht, hst 0 ht, hsh 0 ht]
@@ -531,17 +495,17 @@ theorem flagOK_iff_x (r : CHPRP) (x : Vec) (onf stf shf : Nat → Bool)
     by_cases h0 : r.core.tar = 0 <;> cases stf 0 <;> cases shf 0 <;> cases onf 0 <;> simp [h0]
   | succ s =>
     rw [hon (s+1) ht, hon (s+1-1) (by omega), hst (s+1) ht, hsh (s+1) ht]
-    simp only [startOf, shutOf, Nat.succ_ne_zero, if_false, Nat.add_sub_cancel, b2r_eq_one, b2r_eq_zero, b2r_inj]
+    simp only [startOf, shutOf, Nat.succ_ne_zero, if_false, Nat.add_sub_cancel, b2r_eq_one, b2r_eq_zero]
     cases stf (s+1) <;> cases shf (s+1) <;> cases onf (s+1) <;> cases onf s <;> simp
 
-/-- every 0/1 point: the start / shutdown rows and the bounds of the flags hold iff every step's flags are exact
-    transition indicators, except possibly "both 1, nothing switches" at the last step -/
+/-- every 0/1 point: the start / shutdown rows and the bounds of the flags hold iff at EVERY step (first and last
+    included) both flags are exact transition indicators -/
 theorem flag_rows_iff (r : CHPRP) (hwf : CommitWFP r) (x : Vec) (hb : Binary r x) :
     ((∀ row ∈ r.startShutRows, row.Sat x) ∧
      (∀ t, t < r.core.T → r.lower.getD (r.core.layout.start t) 0 ≤ x (r.core.layout.start t) ∧
         x (r.core.layout.start t) ≤ r.upper.getD (r.core.layout.start t) 0) ∧
      (∀ t, t < r.core.T → r.lower.getD (r.shut t) 0 ≤ x (r.shut t) ∧ x (r.shut t) ≤ r.upper.getD (r.shut t) 0)) ↔
-    ∀ t, t < r.core.T → (FlagExactAt r x t ∨ FlagBothAt r x t) := by
+    ∀ t, t < r.core.T → FlagExactAt r x t := by
   have hon : ∀ t, t < r.core.T → x (r.core.layout.on t) = b2r (decide (x (r.core.layout.on t) = 1)) :=
     fun t ht => b2r_of_01 _ (hb t ht).1
   have hst : ∀ t, t < r.core.T → x (r.core.layout.start t) = b2r (decide (x (r.core.layout.start t) = 1)) :=
@@ -571,9 +535,9 @@ theorem inBounds_on (hwf : CommitWFP r) (x : Vec) (hx : (assembleCHPP r).Feasibl
       x (r.core.layout.on t) ≤ r.upper.getD (r.core.layout.on t) 0 :=
   hx.1 _ (by show _ < r.lower.length; rw [lowerP_len hwf]; simp only [CHPLayout.on]; omega)
 
-/-- feasible 0/1 points: at every step the flags are exact, except possibly "both 1" at the last step -/
+/-- feasible 0/1 points: at every step the flags are exact -/
 theorem flags_of_feasible (r : CHPRP) (hwf : CommitWFP r) (x : Vec) (hx : (assembleCHPP r).FeasibleRelaxed x)
-    (hb : Binary r x) (t : Nat) (ht : t < r.core.T) : FlagExactAt r x t ∨ FlagBothAt r x t :=
+    (hb : Binary r x) (t : Nat) (ht : t < r.core.T) : FlagExactAt r x t :=
   (flag_rows_iff r hwf x hb).1
     ⟨fun row h => hx.2 row (startShutRows_sub r h), inBounds_start hwf x hx, inBounds_shut hwf x hx⟩ t ht
 
